@@ -137,6 +137,11 @@ def gen_pair(rng):
     post = rng.choice(["", "", f"B[{', '.join(['0'] * (2 if two_d else 1))}] = 3.0"])
     if wrap:
         lines.append("    for t in seq(0, 2):")
+        if not two_d and rng.random() < 0.6 and lo + 2 <= 4:
+            # window offsets that depend on the enclosing iterator, the constant written on the
+            # right of the product as often as on the left
+            prod = rng.choice(["t * 2", "2 * t", "t * 1", "t"])
+            args[1] = args[1].replace(f"[{lo}:{lo} + ", f"[{prod}:{prod} + ", 1)
         lines.append(f"        f({', '.join(args)})")
         if post:
             lines.append("        " + post)
@@ -394,6 +399,20 @@ def one(ctx, rng, ninputs):
         ctx.stat("kernel.no_loop")
         return
     cp = par + ((attr, tgt),)
+    if isinstance(blk[tgt], LoopIR.For) and rng.random() < 0.3:
+        # the kernel loop no longer starts where the callee's does: replace has to see the difference
+        how = rng.choice(["shift", "cut"])
+        if how == "shift":
+            apply_step(sess, {"op": "shift_loop", "args": [D_node(cp), {"k": "lit", "v": rng.choice([1, 2, 3])}], "kw": {}})
+        else:
+            rr = apply_step(sess, {"op": "cut_loop", "args": [D_node(cp), {"k": "lit", "v": rng.choice(["1", "2"])}], "kw": {}})
+            if rr.status == "accepted" and rng.random() < 0.7:
+                cp = par + ((attr, tgt + 1),)  # the tail
+        kernel = sess.cur
+        ir = kernel._loopir_proc
+        parent = irutil.node_at(ir, par) if par else ir
+        blk = getattr(parent, attr)
+        ctx.stat("kernel.shifted_or_cut")
     base_steps = list(sess.steps)
     for variant, callee in (("same", "f"), ("strict", "f_strict"), ("other", "g_other")):
         sess.procs = sess.procs[: len(base_steps) + 1]
